@@ -58,7 +58,12 @@ def reset_memento_globals():
         if hasattr(tbl, meth):
             getattr(tbl, meth)()
             break
-    _call_stack._call_stack_thread_local.__dict__.pop("call_stack", None)
+    tl = getattr(_call_stack, "_call_stack_thread_local", None)
+    if tl is not None and hasattr(tl, "__dict__"):
+        tl.__dict__.pop("call_stack", None)
+    else:
+        # (the call stack is kept some other way: the public swap is all the harness relies on)
+        _call_stack.CallStack.swap(_call_stack.CallStack())
     MementoFunction._global_fn_generation = 0
     MementoFunction._global_fn_version_cache.clear()
 
